@@ -1720,7 +1720,9 @@ class Architecture(Instance):
         return self._scope.lookup_name(self)
 
     def entity_name(self):
-        return self._scope.lookup_name(self._entity)
+        # the entity is declared with its own name (see Entity._entity_declaration),
+        # not with the (possibly modified) name used to avoid collisions in the local scope
+        return self._entity.name()
 
     def write_declarations(self):
         return self._scope.format_declarations()
